@@ -8,7 +8,17 @@
 From Coq Require Import List Ring ZArith String.
 From Furax Require Import Base.Pytree Model.Op Model.Algebra Model.Denote Model.Wf Model.AsMatrix
   Lemmas.DenoteL Lemmas.Sound Lemmas.AsMatrixL Lemmas.StructsL Lemmas.AsMatrixExecL Lemmas.AsMatrixLoopL.
+From FuraxGen Require Import Tables.
 Import ListNotations.
+
+(* T-tie (FuraxGen.Tables is regenerated from the imported furax package on every run by
+   tools/translate/tables.py: for every operator class, the definition of as_matrix Python's method
+   resolution finds): every class resolves as_matrix to the definition the model's `as_matrix` dispatches
+   to (Lemmas/AsMatrixL.v am_of_cls / am_owner).  A new override (say on the lazy TransposeOperator), a
+   removed or a moved one breaks this theorem (and Props/Tables.v method_resolution_unchanged) at once;
+   the oracle of the harness then looks for the input on which the dense forms differ. *)
+Theorem as_matrix_resolution_as_modelled : am_resolution_ok gen_method_names gen_methods = true.
+Proof. vm_compute. reflexivity. Qed.
 
 Section C04.
   Variable K : Type.
@@ -180,12 +190,38 @@ Section C04.
     M = mkMat (out_size e) cols.
   Proof. exact (repr_to_columns K k0 k1 kadd kmul ksub kopp Kth leafsem LA). Qed.
 
+  (* what the table above means for the model: a class resolving to AbstractLinearOperator.as_matrix (lazy
+     transposes, products, every leaf class without an override) gets the transcribed generic loop; the classes
+     with an override of their own get that override (identity, scalar, sum, block row / diagonal / column, lazy
+     inverse, diagonal [and its inverse], ravel / reshape, Toeplitz) *)
+  Theorem generic_classes_use_the_loop : forall leaf_override minv (e : op K), am_of_cls (cls_of e) = AmGeneric ->
+    as_matrix K k0 k1 kadd kmul leafsem leaf_override minv e = as_matrix_generic K k0 k1 kadd kmul leafsem e.
+  Proof. exact (fun lo mi => generic_dispatch K k0 k1 kadd kmul leafsem lo mi). Qed.
+  Theorem overriding_classes_use_their_override : forall leaf_override minv (e : op K),
+    let asm := as_matrix K k0 k1 kadd kmul leafsem leaf_override minv in
+    match e with
+    | Ident _ _ => am_of_cls (cls_of e) = AmIdentity /\ asm e = Some (eye K k0 k1 (in_size e))
+    | Homoth _ k _ => am_of_cls (cls_of e) = AmHomothety /\ asm e = Some (mscale K kmul k (eye K k0 k1 (in_size e)))
+    | AddOp _ l => am_of_cls (cls_of e) = AmAddition /\ asm e = obind (omapl asm l) (msum K kadd)
+    | Block _ BRow _ l => am_of_cls (cls_of e) = AmBlockRow /\ asm e = obind (omapl asm l) (hstack K)
+    | Block _ BDiag _ l => am_of_cls (cls_of e) = AmBlockDiagonal /\ asm e = obind (omapl asm l) (fun ms => Some (block_diag K k0 ms))
+    | Block _ BCol _ l => am_of_cls (cls_of e) = AmBlockColumn /\ asm e = obind (omapl asm l) (vstack K)
+    | Wrap _ WInverse x | Wrap _ WQURotT x => am_of_cls (cls_of e) = AmLazyInverse /\ asm e = obind (asm x) minv
+    | Wrap _ WDiagInv _ => am_of_cls (cls_of e) = AmDiagonal /\ asm e = leaf_override e
+    | Prim _ CDiagonal _ _ _ => am_of_cls (cls_of e) = AmDiagonal /\ asm e = leaf_override e
+    | Prim _ CToeplitz _ _ _ => am_of_cls (cls_of e) = AmToeplitz /\ asm e = leaf_override e
+    | Prim _ CRavel _ _ _ | Prim _ CReshape _ _ _ => am_of_cls (cls_of e) = AmRavelOrReshape /\ asm e = Some (eye K k0 k1 (in_size e))
+    | _ => True
+    end.
+  Proof. exact (fun lo mi => override_dispatch K k0 k1 kadd kmul leafsem lo mi). Qed.
+
   (* a dense matrix is determined by its products with vectors (so "same products" = "same array") *)
   Theorem matrix_determined_by_products : forall A B : mat K, mwf K A -> mwf K B -> m_nr A = m_nr B ->
     List.length (m_cols A) = List.length (m_cols B) ->
     (forall v, List.length v = List.length (m_cols A) -> matvec K k0 kadd kmul A v = matvec K k0 kadd kmul B v) -> A = B.
   Proof. exact (mat_ext K k0 k1 kadd kmul ksub kopp Kth). Qed.
 End C04.
+Print Assumptions as_matrix_resolution_as_modelled.
 Print Assumptions denote_homogeneous.
 Print Assumptions denote_additive.
 Print Assumptions denote_linear.
@@ -202,6 +238,8 @@ Print Assumptions block_represents.
 Print Assumptions identity_scalar_override_is_generic.
 Print Assumptions honesty_premise_from_C05.
 Print Assumptions represents_implies_generic.
+Print Assumptions generic_classes_use_the_loop.
+Print Assumptions overriding_classes_use_their_override.
 Print Assumptions matrix_determined_by_products.
 
 (* non-vacuity: lin_facts is satisfiable (every leaf the identity map), and the overrides compute the
